@@ -75,6 +75,11 @@ def input_trees(r):
     # will ever read from it
     out["fifo-at-file-destination"] = ([D("src"), F("src/x", 100, 1), F("src/y", 5000, 2), D("dst"), D("dst/src"), {"p": "dst/src/x", "k": "fifo"}], ["-r", "src", "dst"])
     out["fifo-as-destination-operand"] = ([F("x", 100, 1), {"p": "pipe", "k": "fifo"}], ["x", "pipe"])
+    # ... or links that lead in a circle (the earlier version of the tree had two links pointing at each other)
+    out["link-cycle-at-file-destination"] = ([D("src"), F("src/x", 100, 1), F("src/y", 5000, 2), F("src/z", 10, 3), D("dst"), D("dst/src"),
+                                              {"p": "dst/src/x", "k": "l", "target": "y"}, {"p": "dst/src/y", "k": "l", "target": "x"}, {"p": "dst/src/z", "k": "l", "target": "z"}],
+                                             ["-r", "src", "dst"])
+    out["link-cycle-at-file-destination-n"] = ([D("src"), F("src/x", 100, 1), D("dst"), D("dst/src"), {"p": "dst/src/x", "k": "l", "target": "./x"}], ["-n", "-r", "src", "dst"])
     out["block-device"] = ([D("src")] + [F("src/f%d" % i, 100, i + 1) for i in range(20)] + [{"p": "src/zblk", "k": "blk", "rdev": [7, 99]}], ["-r", "src", "dst"])
     # every worker dies early (failure on the special-file path sends no Error update) while hundreds of operations remain to be queued
     lots = [D("src2")] + [F("src2/f%03d" % i, 10, i + 1) for i in range(400)]
